@@ -748,7 +748,63 @@ def p10(prog, ctx):
     ctx.floor("P10", "distinct returns of create_read_grouper", n, 5)
 
 
+def p11(prog, ctx):
+    """The file-name grouper finds a read's label by looking the BAM file name up in its label table.  Table keys and look-up keys are the
+    same strings only if both are the file name as it stands in sample.file_list - or both went through the same normalisation."""
+    cls = prog.cls(RG, "FileNameGrouper")
+    init = prog.func_inlined(RG, "FileNameGrouper.__init__")
+    look = prog.func_inlined(RG, "FileNameGrouper.get_group_id")
+
+    def normalisers(e):
+        return sorted({(call_name(c) or "?").split(".")[-1] for c in ast.walk(e) if isinstance(c, ast.Call)
+                       and (call_name(c) or "").split(".")[-1] not in ("str",)})
+    tables = {dotted(st.targets[0]) for st in walk_no_nested(init) if isinstance(st, ast.Assign) and len(st.targets) == 1
+              and (dotted(st.targets[0]) or "").startswith("self.") and "name" in (dotted(st.targets[0]) or "")}
+    if len(tables) != 1:
+        ctx.undecided("P11", init, "FileNameGrouper.__init__", "label table attribute not identified (%s)" % sorted(tables))
+        return
+    table = tables.pop()
+    # names the table object goes by while it is filled (a local that is assigned to the attribute at the end)
+    aliases = {table}
+    for st in walk_no_nested(init):
+        if isinstance(st, ast.Assign) and len(st.targets) == 1 and dotted(st.targets[0]) == table and isinstance(st.value, ast.Name):
+            aliases.add(st.value.id)
+    fill = []
+    for st in ast.walk(init):
+        if isinstance(st, ast.Assign) and isinstance(st.targets[0], ast.Subscript) and (dotted(st.targets[0].value) or src(st.targets[0].value)) in aliases:
+            fill.append((st, normalisers(st.targets[0].slice)))
+    lookups = []
+    for x in ast.walk(look):
+        if isinstance(x, ast.Compare) and isinstance(x.ops[0], (ast.In, ast.NotIn)) and dotted(x.comparators[0]) == table:
+            lookups.append((x, normalisers(x.left)))
+        if isinstance(x, ast.Subscript) and isinstance(x.ctx, ast.Load) and dotted(x.value) == table:
+            lookups.append((x, normalisers(x.slice)))
+    if not lookups:
+        ctx.undecided("P11", look, "FileNameGrouper.get_group_id", "no look-up in %s found" % table)
+        return
+    n = 0
+    want = {tuple(nz) for _x, nz in lookups}
+    if len(want) > 1:
+        ctx.fail("P11", lookups[0][0], "FileNameGrouper.get_group_id", "look-up keys %s" % sorted(want), "the label table is looked up with "
+                 "differently normalised keys in one function")
+    for st, nz in fill:
+        n += 1
+        if tuple(nz) not in want:
+            ctx.fail("P11", st, "FileNameGrouper.__init__", "key %s vs look-up %s" % (nz or "as given", sorted(want)[0] or "as given"),
+                     "the label table is keyed by %s while get_group_id looks the file name up %s: for a spelling the normalisation changes "
+                     "(./x.bam, dir//x.bam) the label is not found and the reads are grouped under the raw file name"
+                     % ("%s(file name)" % "/".join(nz) if nz else "the file name as given",
+                        "through %s" % "/".join(sorted(want)[0]) if sorted(want)[0] else "as given"))
+        else:
+            ctx.ok("P11", "%s:%d" % (RG, st.lineno), "label table keyed by the file name %s, as in the look-up" % ("/".join(nz) or "as given"))
+    n += len(lookups)
+    ctx.floor("P11", "fills of / look-ups in the label table", n, 3)
+
+
 def run(prog, ctx):
+    ctx.rule("P11", "FileNameGrouper: the keys stored into the label table and the keys it is looked up with carry the same normalisation "
+                    "calls (none on the pinned tree: the file name as it stands in sample.file_list)")
+    p11(prog, ctx)
     ctx.rule("P10", "every path of create_read_grouper returns the result of a grouper class's constructor called on that path (through "
                     "locals), never an object kept in module-level state")
     p10(prog, ctx)
